@@ -295,5 +295,43 @@ def a05_action_algebra(ctx):
                           f.bodies[fid]['file'], f.bodies[fid]['line'])
             else:
                 r.sample({'conversion': 'From<%s>' % ty, 'input': label, 'result variants': sorted(got)})
+    # From<Option<X>>: None -> Action::None, Some(x) -> the sign class of x
+    for ty, pins in (('f64', (('positive', ('float', 5e-324, INF, False), {'Buy'}), ('negative', ('float', -INF, -5e-324, False), {'Sell'}))),
+                     ('f32', (('positive', ('float', 1e-45, INF, False), {'Buy'}), ('negative', ('float', -INF, -1e-45, False), {'Sell'}))),
+                     ('i8', (('positive', (1, 127), {'Buy'}), ('negative', (-128, -1), {'Sell'}), ('zero', (0, 0), {'None'})))):
+        d = '<core::action::Action as std::convert::From<std::option::Option<%s>>>::from' % ty
+        fid = by_def.get(d)
+        if fid is None:
+            continue
+        cases = [('none', None, {'None'})] + [(lab, pin, want) for lab, pin, want in pins]
+        for label, pin, want in cases:
+            def mk(ex, st, b, pin=pin, ty=ty):
+                v = ex.top_of(st, b.locals[1]['tyj'])
+                if pin is None:
+                    return [('adt', v[1], frozenset(['None']), v[3])]
+                cell = v[3]['Some']['0']
+                st.cells[cell] = ex.mk_int(st, 'i8', pin[0], pin[1]) if ty == 'i8' else pin
+                return [('adt', v[1], frozenset(['Some']), v[3])]
+            ex, outs = run(fid, mk)
+            got = variants_of(ex, outs or [])
+            key = 'sign|From<Option<%s>>|%s' % (ty, label)
+            r.inst(key)
+            if not got or not got <= want:
+                r.violate(key + '|' + '+'.join(sorted(got - want)), 'From<Option<%s>> of %s can give %s (expected %s)' % (
+                    ty, 'None' if pin is None else 'Some(%s)' % label, sorted(got - want), sorted(want)), f.bodies[fid]['file'], f.bodies[fid]['line'])
+            else:
+                r.sample({'conversion': 'From<Option<%s>>' % ty, 'input': label, 'result variants': sorted(got)})
+    # From<bool>: true is a full buy, false is no signal
+    fid = by_def.get('<core::action::Action as std::convert::From<bool>>::from')
+    if fid is not None:
+        for bv, want in ((1, {'Buy'}), (0, {'None'})):
+            ex, outs = run(fid, lambda ex, st, b, bv=bv: [ex.mk_int(st, 'bool', bv, bv)])
+            got = variants_of(ex, outs or [])
+            key = 'sign|From<bool>|%s' % bool(bv)
+            r.inst(key)
+            if not got or not got <= want:
+                r.violate(key + '|' + '+'.join(sorted(got - want)), 'From<bool>(%s) can give %s (expected %s)' % (bool(bv), sorted(got - want), sorted(want)),
+                          f.bodies[fid]['file'], f.bodies[fid]['line'])
     r.floor('Action functions', 15, n)
+    r.floor('Action sign-table rows', 40, sum(1 for k in r.nontrivial if k.startswith('sign|')))
     return r
